@@ -37,6 +37,7 @@ type Spec struct {
 	SpawnSends  int   `json:"spawn_sends,omitempty"`  // sends by a second goroutine while the first Initialized handler waits for it
 	Children    int   `json:"children,omitempty"`     // children spawned in Started of the first incarnation of each process
 	RespawnKids bool  `json:"respawn_kids,omitempty"` // every later incarnation spawns the same child ids again in Started (refused as duplicates)
+	KidSwap     bool  `json:"kid_swap,omitempty"`     // while handling its first user message the actor lists its children, stops the first one and spawns another under a new id
 	Replies     bool  `json:"replies,omitempty"`      // the receiver answers every user message that has a sender with Context.Respond
 	// Split > 0: the chain is handed over in two WithMiddleware options (the first Split layers, then the
 	// rest); the configured order is the order of the options.
